@@ -117,15 +117,18 @@ class HistGen:
         sym = "-" if refless else w.fresh("b")
         q = "-" if quantum is None else rat(quantum)
         rname = "1" if (sym != "-" and rng.random() < .5) else "0"
-        # histories of valid declarations only: one base type in four is written
-        # as a subclass of an earlier base type (it is a type of its own)
+        # one base type in four is written as a subclass of an earlier base type
+        # (it is a type of its own)
         parents = [n for n, c in w.classes.items()
                    if "items" not in c and c["ref"] is not None and c["quantum"] is None]
-        if not self.with_invalid and not refless and quantum is None and parents and rng.random() < .25:
-            rname = f"sub:{rng.choice(parents)}:{rname}"
+        parent = None
+        if quantum is None and parents and rng.random() < .25:
+            # (also a subclass WITHOUT a reference unit of its own: it has none)
+            parent = rng.choice(parents)
+            rname = f"sub:{parent}:{rname}"
         op = ["decl_class", name, "-", sym, rname, q]
         w.classes[name] = dict(dim={name: 1}, ref=None if refless else sym,
-                               quantum=quantum, units=[] if refless else [sym])
+                               quantum=quantum, units=[] if refless else [sym], parent=parent)
         w.order.append(name)
         if not refless:
             w.units[sym] = dict(cls=name, scale=Fraction(1), dim={name: 1})
@@ -372,6 +375,15 @@ class HistGen:
         return dict(op=["new_unit", cls, sym, "none"], expect="ok",
                     kind="refless-unit", new_sym=sym)
 
+    def _related(self, a, b):
+        def anc(x):
+            out = set()
+            while x is not None:
+                out.add(x)
+                x = self.w.classes[x].get("parent")
+            return out
+        return a in anc(b) or b in anc(a)
+
     # -- invalid declarations (must be rejected, must leave no trace) ------
     def invalid(self, only=None):
         w, rng = self.w, self.rng
@@ -405,6 +417,8 @@ class HistGen:
                 return self._bad(["new_unit", w.units[t]["cls"], "-", "qty", "3", t, MODE], kind)
             if kind == "wrong-class-qty" and len(refcls) >= 2:
                 a, b = rng.sample(refcls, 2)
+                if self._related(a, b):
+                    continue      # a quantity of a subclass IS an instance of its parent
                 t = w.classes[b]["units"][0]
                 return self._bad(["new_unit", a, w.fresh("x"), "qty", "3", t, MODE], kind)
             if kind == "wrong-dim-term" and len(refcls) >= 2:
